@@ -163,25 +163,10 @@ func (s asciiString) _toFloat(trimmed string) (float64, error) {
 	return f, err
 }
 
+// ToInteger is ToIntegerOrInfinity(ToNumber(s)) clamped to int64: derived from ToNumber so that the
+// entry points cannot disagree (overflowing magnitudes, signs, spellings).
 func (s asciiString) ToInteger() int64 {
-	ss := strings.TrimSpace(string(s))
-	if ss == "" {
-		return 0
-	}
-	if ss == "Infinity" || ss == "+Infinity" {
-		return math.MaxInt64
-	}
-	if ss == "-Infinity" {
-		return math.MinInt64
-	}
-	i, err := s._toInt(ss)
-	if err != nil {
-		f, err := s._toFloat(ss)
-		if err == nil {
-			return int64(f)
-		}
-	}
-	return i
+	return s.ToNumber().ToInteger()
 }
 
 func (s asciiString) toString() String {
@@ -197,25 +182,7 @@ func (s asciiString) String() string {
 }
 
 func (s asciiString) ToFloat() float64 {
-	ss := strings.TrimSpace(string(s))
-	if ss == "" {
-		return 0
-	}
-	if ss == "Infinity" || ss == "+Infinity" {
-		return math.Inf(1)
-	}
-	if ss == "-Infinity" {
-		return math.Inf(-1)
-	}
-	f, err := s._toFloat(ss)
-	if err != nil {
-		i, err := s._toInt(ss)
-		if err == nil {
-			return float64(i)
-		}
-		f = math.NaN()
-	}
-	return f
+	return s.ToNumber().ToFloat()
 }
 
 func (s asciiString) ToBoolean() bool {
